@@ -1,7 +1,181 @@
+(* C09 — Persistent operations and chain-update batches are all-or-nothing.
+   Statements only; every proof is [exact lemma].
+
+   Readings (DESIGN.md §3 C09): for the documented batch operations (ExpireContractSectors,
+   ExpireV2ContractSectors, ExpireTempSectors, PruneSectors, MigrateSectors, RemoveVolume,
+   StoreSector) "no visible effect" is read as: every batch is atomic, every intermediate
+   committed state is consistent, and running the operation again completes it.
+
+   Partial: process death is modelled as the failure of the k-th database call with nothing
+   executed afterwards; that an uncommitted SQLite transaction leaves no trace after a real
+   crash (atomic commit, WAL recovery) is trusted, not modelled (c09_process_death_partial). *)
 From HostdBase Require Import Base.
+From Coq Require Import String.
 From HostdTxn Require Import Shape TxnTable Model Proofs.
+
+(** Obligations on the table regenerated from the source on every run *)
+
+(* every exported Store method that writes is a single Store.transaction call, or is one of
+   the documented multi-step operations with exactly the documented structure *)
 Theorem c09_table_ok : table_ok = true.
 Proof. exact table_ok_holds. Qed.
 Print Assumptions c09_table_ok.
-Example c09_nonvacuous : table_ok = true.
-Proof. vm_compute. reflexivity. Qed.
+
+(* every manager method that writes its cache and the store writes the cache after the
+   checked store call *)
+Theorem c09_mgr_table_ok : mgr_table_ok = true.
+Proof. exact mgr_table_ok_holds. Qed.
+Print Assumptions c09_mgr_table_ok.
+
+(* syncDB: wallet, contract and settings updates and SetLastIndex run inside the one
+   UpdateChainState closure, and nothing that can fail sits between the commit and the
+   update of the in-memory tip *)
+Theorem c09_sync_ok : sync_ok = true.
+Proof. exact sync_ok_holds. Qed.
+Print Assumptions c09_sync_ok.
+
+Theorem c09_writer_is_single_transaction : forall e,
+  In e store_methods -> sm_writes e = true -> mem_str (sm_name e) exempt = false ->
+  lookup_multi (sm_name e) documented_multi = None -> sm_shape e = [STxn].
+Proof. exact writer_single_or_documented. Qed.
+Print Assumptions c09_writer_is_single_transaction.
+
+(** One transaction: for every statement list, every state, every fault index and kind *)
+
+(* any failure — of a statement by itself, an injected error at Begin, at the k-th
+   statement or at Commit, a panic — leaves the committed state exactly as it was *)
+Theorem c09_single_atomic : forall (db : Type) (b : body db) (s : db) (c : fc) (xf : bool),
+  r_res (exec [ITxn b] s c xf) <> Ok tt -> r_db (exec [ITxn b] s c xf) = s.
+Proof. exact single_atomic. Qed.
+Print Assumptions c09_single_atomic.
+
+(* success installs what the statements compute in order without faults: all of it *)
+Theorem c09_single_all : forall (db : Type) (b : body db) (s : db) (c : fc) (xf : bool),
+  r_res (exec [ITxn b] s c xf) = Ok tt ->
+  exists tr0, run_body b s None = (BDone (r_db (exec [ITxn b] s c xf)), tr0, None).
+Proof. exact single_all. Qed.
+Print Assumptions c09_single_all.
+
+(* an injected error inside the transaction is never swallowed *)
+Theorem c09_fault_is_reported : forall (db : Type) (b : body db) (s : db) (k : nat) (xf : bool),
+  (k <= n_elig b + 1)%nat -> r_res (exec [ITxn b] s (Some (k, false)) xf) <> Ok tt.
+Proof. exact single_fault_not_swallowed. Qed.
+Print Assumptions c09_fault_is_reported.
+
+(* "database is locked" at any call: the store retries and the call is indistinguishable
+   from the uninterrupted one *)
+Theorem c09_busy_retry_transparent : forall (db : Type) (b : body db) (s : db) (k : nat) (xf : bool),
+  r_db (exec [ITxn b] s (Some (k, true)) xf) = r_db (exec [ITxn b] s None xf) /\
+  r_res (exec [ITxn b] s (Some (k, true)) xf) = r_res (exec [ITxn b] s None xf).
+Proof. exact single_busy_transparent. Qed.
+Print Assumptions c09_busy_retry_transparent.
+
+(** Several transactions (documented batch operations) *)
+
+(* whatever fails, the committed state is the one after some prefix of the method's
+   transactions, each of them complete.  PARTIAL with respect to process death: a crash is
+   the same as a failing call provided SQLite's commit is atomic. *)
+Theorem c09_process_death_partial : forall (db : Type) (p : list (item db)) (s : db) (c : fc) (xf : bool),
+  only_txn p = true ->
+  exists n, (n <= List.length p)%nat /\
+    r_db (exec p s c xf) = r_db (exec (firstn n p) s None xf) /\
+    r_res (exec (firstn n p) s None xf) = Ok tt /\
+    (r_res (exec p s c xf) = Ok tt -> n = List.length p).
+Proof. exact prefix_commit. Qed.
+Print Assumptions c09_process_death_partial.
+
+(* batched loops: wherever the loop stops, the counter still mirrors the rows and only
+   selected rows are gone *)
+Theorem c09_batch_loop_consistent : forall fuel bsz fa s,
+  consistent s ->
+  consistent (fst (batch_loop fuel bsz fa s)) /\ unselected (fst (batch_loop fuel bsz fa s)) = unselected s.
+Proof. exact batch_loop_inv. Qed.
+Print Assumptions c09_batch_loop_consistent.
+
+Theorem c09_batch_loop_completes : forall fuel bsz s,
+  (List.length (rows s) < fuel)%nat ->
+  snd (batch_loop fuel (S bsz) None s) = true /\ rows (fst (batch_loop fuel (S bsz) None s)) = unselected s.
+Proof. exact batch_loop_completes. Qed.
+Print Assumptions c09_batch_loop_completes.
+
+(* interrupted at any batch and run again, the operation ends in the state of the
+   uninterrupted run *)
+Theorem c09_batch_retry_converges : forall fuel bsz j s,
+  consistent s -> (List.length (rows s) < fuel)%nat ->
+  fst (batch_loop fuel (S bsz) None (fst (batch_loop fuel (S bsz) (Some j) s))) = fst (batch_loop fuel (S bsz) None s).
+Proof. exact batch_retry_converges. Qed.
+Print Assumptions c09_batch_retry_converges.
+
+(** Managers: in-memory caches agree with the database under faults *)
+Theorem c09_cache_after_commit : forall (db cache : Type) (load : db -> cache) (o : mop db cache) s c xf,
+  m_pos o = CacheAfterOk -> fails_clean (m_store o) -> right_on_success load o ->
+  coherent load s -> coherent load (fst (mgr_exec o s c xf)).
+Proof. exact cache_after_commit. Qed.
+Print Assumptions c09_cache_after_commit.
+
+Theorem c09_single_store_call_fails_clean : forall (db : Type) (b : body db), fails_clean [ITxn b].
+Proof. exact single_fails_clean. Qed.
+Print Assumptions c09_single_store_call_fails_clean.
+
+(* why the order matters (ConfigManager.UpdateSettings before the fix): cache first,
+   store second, loses coherence on the first failed write *)
+Theorem c09_cache_before_store_incoherent :
+  coherent (fun d : N => d) (1%N, 1%N) /\
+  ~ coherent (fun d : N => d) (fst (mgr_exec settings_like (1%N, 1%N) (Some (1%nat, false)) false)).
+Proof. exact cache_before_store_incoherent. Qed.
+Print Assumptions c09_cache_before_store_incoherent.
+
+(** The chain-update batch *)
+
+(* wallet, contracts, announcement state and the processed-tip marker change together or
+   not at all, for every fault at every call of the batch *)
+Theorem c09_batch_atomic : forall (data batch : Type) (w ct st : batch -> data -> res data)
+    (b : batch) (m' : N) (s : idb data) (c : fc),
+  let r := exec [ITxn (batch_body w ct st b m')] s c false in
+  (r_res r <> Ok tt -> r_db r = s) /\
+  (r_res r = Ok tt -> exists d1 d2 d3,
+      w b (d_data s) = Ok d1 /\ ct b d1 = Ok d2 /\ st b d2 = Ok d3 /\
+      r_db r = {| d_data := d3; d_marker := m' |}).
+Proof. exact batch_atomic. Qed.
+Print Assumptions c09_batch_atomic.
+
+(* any schedule of failures (inside the batch or in the actions after it) only delays the
+   uninterrupted run: the indexer is always in a state of the clean run *)
+Theorem c09_resume_converges : forall (data batch : Type) (next : N -> option (batch * N))
+    (w ct st : batch -> data -> res data) (sched : list (fc * bool)) (s : istate data),
+  exists n, (n <= List.length sched)%nat /\
+    run_sync next w ct st true sched s = iter_clean next w ct st n s.
+Proof. exact resume_converges. Qed.
+Print Assumptions c09_resume_converges.
+
+(* the in-memory tip always equals the stored marker, hence a restart resumes from the
+   same point *)
+Theorem c09_tip_follows_marker : forall (data batch : Type) (next : N -> option (batch * N))
+    (w ct st : batch -> data -> res data) (sched : list (fc * bool)) (s : istate data),
+  tip_is_marker s -> tip_is_marker (run_sync next w ct st true sched s).
+Proof. exact run_keeps_tip. Qed.
+Print Assumptions c09_tip_follows_marker.
+
+Theorem c09_restart_resumes_from_marker : forall (data : Type) (s : istate data),
+  tip_is_marker s -> restart_idx s = s.
+Proof. exact restart_is_identity. Qed.
+Print Assumptions c09_restart_resumes_from_marker.
+
+(* the order before the fix (tip updated only after the post-commit actions succeeded): one
+   failing action and the same batch is applied twice — data 2 at marker 1 *)
+Theorem c09_tip_after_actions_diverges :
+  let s := run_sync ex_next ex_upd ex_id ex_id false [(None, true); (None, false)] ex_s0 in
+  d_marker (i_db s) = 1%N /\ d_data (i_db s) = 2%N /\
+  d_data (i_db (run_sync ex_next ex_upd ex_id ex_id true [(None, true); (None, false)] ex_s0)) = 2%N /\
+  d_marker (i_db (run_sync ex_next ex_upd ex_id ex_id true [(None, true); (None, false)] ex_s0)) = 2%N.
+Proof. exact tip_after_actions_diverges. Qed.
+Print Assumptions c09_tip_after_actions_diverges.
+
+(* non-vacuity: the model predicts a real recorded call — ReviseContract with the 6th
+   database call failing is rolled back and reports an error; with "database is locked"
+   it is retried and commits *)
+Example c09_nonvacuous :
+  snd (step init (Call "ReviseContract" "BXXXXPPXXXXXXC" 0 (Some (5%N, Hard)))) = OCall 1 "BXXXXpR" false /\
+  snd (step init (Call "ReviseContract" "BXXXXPPXXXXXXC" 0 (Some (5%N, Busy)))) = OCall 0 "BXXXXpRBXXXXPPXXXXXXC" true /\
+  snd (step init (Call "ExpireTempSectors" "BXXXCBXC" 0 (Some (5%N, Hard)))) = OCall 1 "BXXXCb" true.
+Proof. vm_compute. repeat split; reflexivity. Qed.
